@@ -1,6 +1,6 @@
 """C03 — every well-formed message of a supported type is accepted and reproduced exactly."""
 from .common import Report, Finding
-from . import grules, options, grammar as G
+from . import grules, options, accept, emit, grammar as G
 
 LEVEL = "translation_validation"
 EXPLANATION = ("The library's own model (struct declarations with Option/Vec, option enums) is the layout; decided "
@@ -8,7 +8,8 @@ EXPLANATION = ("The library's own model (struct declarations with Option/Vec, op
                "<-> serialiser kinds and order (G4, G6), every option of every enum is detectable at its step (G7), "
                "option letter -> variant is exact (O1), sequence loops are keyed on their marker (G8), two "
                "consecutive optional variant steps on one base tag decline each other's letters (CO), and the "
-               "drop-free conditions shared with C01 (G1-G3). No external SWIFT layout table is used.")
+               "drop-free conditions shared with C01 (G1-G3). Field level: accept condition, stored components and emitted "
+               "text of every field parser equal the reviewed reference (U6, U7, E1). No external SWIFT layout table.")
 ASSUMPTIONS = ["the documented layout of a type is its model (struct / enum declarations)"]
 
 
@@ -60,6 +61,10 @@ def run(F, tier):
     grules.g11(rep, tms)
     options.o1(rep, F, ft, tms)
     co_occurrence(rep, tms, ft)
+    # field level: what each field parser accepts, what it stores and what it writes back, against the reference
+    accept.u6(rep, F, "fields")
+    accept.u7(rep, F, "fields")
+    emit.e1(rep, F, "fields")
     rep.programs = 3 * len(tms)
     rep.cells = sum(x["instances"] for x in rep.rules.values())
     rep.sample({"type": tms[0].name, "model_vs_steps": [(s.tag, s.kind) for s in tms[0].g.sites][:20]})
